@@ -99,6 +99,10 @@ type memConn struct {
 	peerClosed  bool
 	localClosed bool
 	maxRead     int // 0 = unlimited; otherwise at most this many bytes per Read
+	// peerEOF: the peer has finished sending (half-close): Read reports io.EOF once the buffer is drained, writes still work.
+	// eofWithData: the Read that drains the buffer reports io.EOF together with the last bytes (io.Reader allows it; TLS does it)
+	peerEOF     bool
+	eofWithData bool
 
 	wmu sync.Mutex
 
@@ -133,7 +137,7 @@ func (c *memConn) Read(p []byte) (int, error) {
 	}
 	c.mu.Lock()
 	defer c.mu.Unlock()
-	for len(c.rbuf) == 0 && !c.peerClosed && !c.localClosed {
+	for len(c.rbuf) == 0 && !c.peerClosed && !c.peerEOF && !c.localClosed {
 		c.cond.Wait()
 	}
 	if c.localClosed {
@@ -149,6 +153,9 @@ func (c *memConn) Read(p []byte) (int, error) {
 		}
 		copy(p, c.rbuf[:n])
 		c.rbuf = c.rbuf[n:]
+		if c.eofWithData && len(c.rbuf) == 0 && (c.peerEOF || c.peerClosed) {
+			return n, io.EOF
+		}
 		return n, nil
 	}
 	return 0, io.EOF
@@ -228,7 +235,7 @@ func (c *memConn) Close() error {
 func (c *memConn) peerSend(b []byte) bool {
 	c.mu.Lock()
 	defer c.mu.Unlock()
-	if c.peerClosed || c.localClosed {
+	if c.peerClosed || c.peerEOF || c.localClosed {
 		return false
 	}
 	c.rbuf = append(c.rbuf, b...)
@@ -250,6 +257,17 @@ func (c *memConn) peerClose(discard bool) {
 	}
 	if !already {
 		c.log.add(c.id, "CLOSE-PEER", nil, "")
+	}
+	c.cond.Broadcast()
+	c.mu.Unlock()
+}
+
+// peerHalfClose: the peer has sent everything it will ever send; what is buffered stays readable, then io.EOF.
+func (c *memConn) peerHalfClose() {
+	c.mu.Lock()
+	if !c.peerEOF {
+		c.peerEOF = true
+		c.log.add(c.id, "EOF-PEER", nil, "")
 	}
 	c.cond.Broadcast()
 	c.mu.Unlock()
